@@ -35,6 +35,7 @@ class Sys:
         from mc.gen import drivers as D
 
         self.specs = DP.deployment(**p)
+        hk = p["variant"].split("-")[0] if p.get("read_refresh") else None
         M_now = M.now
         self._M = M
         self._saved = M_now
@@ -44,7 +45,8 @@ class Sys:
         classes, alldefs = [], []
         for s in self.specs:
             bi = s.get("derive_from")
-            cls, defs = D.build_class(s, base_cls=classes[bi] if bi is not None else None, base_defs=alldefs[bi] if bi is not None else None)
+            hf = DM.read_refresh_handlers(hk) if (hk and s is self.specs[0]) else None
+            cls, defs = D.build_class(s, handlers=hf, handlers_level=0 if hf else None, base_cls=classes[bi] if bi is not None else None, base_defs=alldefs[bi] if bi is not None else None)
             classes.append(cls)
             alldefs.append(defs)
             self.devs.append(cls(router=self.router))
